@@ -116,7 +116,11 @@ def extract_valid_to(headers: CaseInsensitiveDict) -> datetime:
     """Extract/create valid to."""
     uncache_after = extract_uncache_after(headers.get_lower("cache-control", ""))
     timestamp: datetime = headers.get_lower("_timestamp")
-    return timestamp + uncache_after
+    try:
+        return timestamp + uncache_after
+    except OverflowError:
+        # Valid beyond the representable range: valid "forever".
+        return datetime.max
 
 
 class SsdpDevice:
